@@ -504,6 +504,15 @@ def A12_extend_bookkeeping(repo, clause):
         ok_i = good == len(stores) and good >= 1
         detail = "%d/%d stores in the identity-map loop write self[...self index...] from other[...other index...]" % (good, len(stores))
     obs.append(Ob("A12", clause, fn, loops[0] if loops else fn.node, ok_i, detail, slot="identity-adopts"))
+    # an atom declared identical stays THE STRUCTURE'S atom: it adopts the other's type and extra fields (documented), never its position, charge or group
+    if loops:
+        for s_ in [n for n in ast.walk(loops[0]) if isinstance(n, (ast.Assign, ast.AugAssign))]:
+            for t_ in (s_.targets if isinstance(s_, ast.Assign) else [s_.target]):
+                if isinstance(t_, ast.Subscript) and is_self_attr(t_.value) and t_.value.attr in ("charges", "groups", "positions"):
+                    obs.append(Ob("A12", clause, fn, s_, False,
+                                  "`%s` overwrites self.%s of an atom that is declared IDENTICAL to an existing atom: such atoms keep their own position, charge and group "
+                                  "(replacing a pattern by itself would otherwise wipe the structure's charges / molecule ids with the pattern's)" % (ast.unparse(s_)[:70], t_.value.attr),
+                                  slot="identity-keeps:%s" % t_.value.attr, positive="robust"))
     # ... and they do so for EVERY identical atom: no path through the loop body skips a store, except the extra-field store when
     # there are no extra fields at all
     if loops:
@@ -955,7 +964,7 @@ def A17_mass_guess(repo, clause):
                             tests.append((f, n))
     floor("A17", "tolerance tests", len(tests), 1)
     for f, t in tests:
-        two_sided, why = _two_sided(t, tolname)
+        two_sided, why = _two_sided(t, tolname, f)
         obs.append(Ob("A17", clause, f, t, two_sided, why, slot="two-sided", positive=True))
     # nearest vs first hit
     first_hit = []
@@ -967,6 +976,32 @@ def A17_mass_guess(repo, clause):
                 gs = norm_guards(f, n)
                 if any(tolname in ast.unparse(t) for t, p, k in gs):
                     first_hit.append((f, n))
+            if isinstance(n, ast.Return) and n.value is not None:
+                # `return hits[0]` / `return next(...)` where hits is the table FILTERED by the tolerance (in table order): the first qualifying entry
+                try:
+                    rv_ = expand(f, n.value)
+                except Exception:
+                    rv_ = n.value
+                sel_ = None
+                if isinstance(rv_, ast.Subscript) and const_value(rv_.slice) == 0:
+                    try:
+                        sel_ = expand(f, rv_.value)
+                    except Exception:
+                        sel_ = rv_.value
+                elif isinstance(rv_, ast.Call) and call_name(rv_) == "next" and rv_.args:
+                    try:
+                        sel_ = expand(f, rv_.args[0])
+                    except Exception:
+                        sel_ = rv_.args[0]
+                if isinstance(sel_, (ast.ListComp, ast.GeneratorExp)) and any(tolname in ast.unparse(c_) for g_ in sel_.generators for c_ in g_.ifs) \
+                        and not any(isinstance(y_, ast.Call) and call_name(y_) in ("sorted", "min", "argmin") for y_ in ast.walk(sel_)) and (f, n) not in first_hit:
+                    first_hit.append((f, n))
+                    for g_ in sel_.generators:
+                        for c_ in g_.ifs:
+                            for y_ in ast.walk(c_):
+                                if isinstance(y_, ast.Compare) and tolname in ast.unparse(y_) and all(y_ is not t2 for _, t2 in tests):
+                                    tests.append((f, y_))
+                                    obs.append(Ob("A17", clause, f, y_, *_two_sided(y_, tolname, f), slot="two-sided", positive=True))
             if isinstance(n, ast.Call) and call_name(n) in ("min", "argmin", "sorted", "nsmallest"):
                 nearest.append((f, n))
             if isinstance(n, ast.For) and "ATOMIC_MASSES" in ast.unparse(n.iter):
@@ -993,6 +1028,22 @@ def A17_mass_guess(repo, clause):
         obs.append(Ob("A17", clause, f, n, False,
                       "the scan returns the first table entry that passes the tolerance test, not the nearest one "
                       "(two entries can both be within tolerance)", slot="nearest", positive=True))
+    # the scan must cover the whole table: an early `break` is only sound if the table is ordered by mass, which it is not
+    for f, lp in scan_loops:
+        for b in ast.walk(lp):
+            if isinstance(b, ast.Break):
+                from .fam_e import _literal
+                try:
+                    m_, v_, table = _literal(repo, "ATOMIC_MASSES")
+                    vals = list(table.values())
+                    ordered = all(a <= b2 for a, b2 in zip(vals, vals[1:]))
+                    inversions = [k for k, (a, b2) in zip(list(table)[1:], zip(vals, vals[1:])) if a > b2]
+                except AnalysisError:
+                    ordered, inversions = False, []
+                obs.append(Ob("A17", clause, f, b, ordered,
+                              "the scan over the mass table stops early; that is only sound for a table in increasing mass order, "
+                              "and ATOMIC_MASSES is %s (entries lighter than their predecessor: %s)" % (
+                                  "ordered" if ordered else "NOT ordered", inversions[:8]), slot="early-termination", positive=True))
     if mask_first and not first_hit:
         first_hit = [(f, n) for f, n, rv in mask_first]
     if not first_hit:
@@ -1003,6 +1054,26 @@ def A17_mass_guess(repo, clause):
                 if isinstance(t, ast.If) and isinstance(t.test, ast.Compare) and len(t.test.ops) == 1 and isinstance(t.test.ops[0], (ast.Lt, ast.LtE)) \
                         and all(isinstance(x, ast.Call) and call_name(x) in ("abs", "fabs") for x in (t.test.left, t.test.comparators[0])):
                     best_loop = (f, lp, t)
+                # ... or with the best difference so far kept in a local: `if abs(m - x) < best: sym, best = s, abs(m - x)`
+                elif isinstance(t, ast.If) and [c_ for c_ in ast.walk(t.test) if isinstance(c_, ast.Compare) and len(c_.ops) == 1 and isinstance(c_.ops[0], (ast.Lt, ast.LtE))
+                                               and isinstance(c_.comparators[0], ast.Name) and (
+                                                   (isinstance(c_.left, ast.Call) and call_name(c_.left) in ("abs", "fabs")) or
+                                                   (isinstance(c_.left, ast.Name) and any(isinstance(d_, ast.Assign) and len(d_.targets) == 1 and isinstance(d_.targets[0], ast.Name)
+                                                                                          and d_.targets[0].id == c_.left.id and isinstance(d_.value, ast.Call) and call_name(d_.value) in ("abs", "fabs")
+                                                                                          for d_ in ast.walk(lp))))]:
+                    c0_ = [c_ for c_ in ast.walk(t.test) if isinstance(c_, ast.Compare) and len(c_.ops) == 1 and isinstance(c_.ops[0], (ast.Lt, ast.LtE)) and isinstance(c_.comparators[0], ast.Name)][0]
+                    bname = c0_.comparators[0].id
+                    lhs = ast.unparse(c0_.left)
+                    upd = False
+                    for st_ in t.body:
+                        if isinstance(st_, ast.Assign):
+                            tg_, vl_ = st_.targets[0], st_.value
+                            pairs_ = list(zip(tg_.elts, vl_.elts)) if isinstance(tg_, ast.Tuple) and isinstance(vl_, ast.Tuple) and len(tg_.elts) == len(vl_.elts) else [(tg_, vl_)]
+                            for a_, b_ in pairs_:
+                                if isinstance(a_, ast.Name) and a_.id == bname and ast.unparse(b_) == lhs:
+                                    upd = True
+                    if upd:
+                        best_loop = (f, lp, t)
         if nearest:
             f, n = nearest[0]
             keyed = kwarg(n, "key") is not None or call_name(n) == "argmin"
@@ -1058,22 +1129,6 @@ def A17_mass_guess(repo, clause):
             obs.append(Ob("A17", clause, f, t, True, "element is chosen by a best-so-far scan over the absolute mass difference", slot="nearest"))
         else:
             raise AnalysisError("A17: neither a first-hit return nor a nearest selection (min/argmin/sorted/best-so-far) recognised")
-    # the scan must cover the whole table: an early `break` is only sound if the table is ordered by mass, which it is not
-    for f, lp in scan_loops:
-        for b in ast.walk(lp):
-            if isinstance(b, ast.Break):
-                from .fam_e import _literal
-                try:
-                    m_, v_, table = _literal(repo, "ATOMIC_MASSES")
-                    vals = list(table.values())
-                    ordered = all(a <= b2 for a, b2 in zip(vals, vals[1:]))
-                    inversions = [k for k, (a, b2) in zip(list(table)[1:], zip(vals, vals[1:])) if a > b2]
-                except AnalysisError:
-                    ordered, inversions = False, []
-                obs.append(Ob("A17", clause, f, b, ordered,
-                              "the scan over the mass table stops early; that is only sound for a table in increasing mass order, "
-                              "and ATOMIC_MASSES is %s (entries lighter than their predecessor: %s)" % (
-                                  "ordered" if ordered else "NOT ordered", inversions[:8]), slot="early-termination", positive=True))
     # every element handed back comes from the nearest-element selection; a shortcut that accepts another candidate by the tolerance alone is a first-hit rule in disguise
     if fe is not outer:
         for c_ in [x for x in outer.own_nodes() if isinstance(x, ast.Call) and isinstance(x.func, ast.Attribute) and x.func.attr in ("append", "extend") and x.args]:
@@ -1191,7 +1246,35 @@ def A17_mass_guess(repo, clause):
     return obs
 
 
-def _two_sided(t, tol):
+def _abs_valued(fn, name, depth=0):
+    """every value ever bound to local `name` in fn (None / inf placeholders aside) is an absolute value, directly or through another such local"""
+    if fn is None or depth > 3:
+        return False
+    vals = []
+    for st in fn.all_nodes():
+        if isinstance(st, ast.Assign):
+            for tg in st.targets:
+                if isinstance(tg, ast.Name) and tg.id == name:
+                    vals.append(st.value)
+                elif isinstance(tg, ast.Tuple) and isinstance(st.value, ast.Tuple) and len(tg.elts) == len(st.value.elts):
+                    vals += [v for a, v in zip(tg.elts, st.value.elts) if isinstance(a, ast.Name) and a.id == name]
+                elif isinstance(tg, ast.Tuple) and any(isinstance(a, ast.Name) and a.id == name for a in tg.elts):
+                    return False
+    vals = [v for v in vals if not (isinstance(v, ast.Constant) and v.value is None) and "inf" not in ast.unparse(v)]
+    if not vals:
+        return False
+    for v in vals:
+        if isinstance(v, ast.Call) and call_name(v) in ("abs", "fabs", "absolute"):
+            continue
+        if isinstance(v, ast.Name) and v.id != name and _abs_valued(fn, v.id, depth + 1):
+            continue
+        return False
+    return True
+
+
+def _two_sided(t, tol, fn=None):
+    if isinstance(t, ast.Compare) and len(t.ops) == 1 and any(isinstance(sd, ast.Name) and sd.id != tol and _abs_valued(fn, sd.id) for sd in [t.left] + t.comparators):
+        return True, "|difference| (kept in a local) compared with the tolerance (%s)" % ast.unparse(t)
     if isinstance(t, ast.Call):
         d = dotted(t.func) or ""
         if d.startswith("math."):
@@ -1568,7 +1651,7 @@ def atoms_typed_names(repo, fn):
     return {k for k, v in typed.items() if v}
 
 
-def A19_attribute_discipline(repo, clause, funcs=None):
+def A19_attribute_discipline(repo, clause, funcs=None, modules=None):
     obs = []
     universe = atoms_attr_universe(repo)
     floor("A19", "Atoms attributes", len(universe), 60)
@@ -1576,14 +1659,32 @@ def A19_attribute_discipline(repo, clause, funcs=None):
     for fn in repo.all_fns():
         if funcs is not None and fn.qualname not in funcs:
             continue
+        if modules is not None and fn.module.name not in modules:
+            continue
         typed = atoms_typed_names(repo, fn)
         typed.discard("self")
-        if not typed:
+        # flow-sensitive addition: a name that is re-used for other things (a list of atom lines, then the constructed object) is Atoms-typed at the accesses that are reached
+        # only by its constructor / loader definitions
+        ctor_defs = {}
+        for d_ in fn.own_nodes():
+            if isinstance(d_, ast.Assign) and len(d_.targets) == 1 and isinstance(d_.targets[0], ast.Name) and isinstance(d_.value, ast.Call) and isinstance(d_.value.func, ast.Name) \
+                    and (d_.value.func.id == "Atoms" or (d_.value.func.id == "cls" and fn.cls == "Atoms")):
+                ctor_defs.setdefault(d_.targets[0].id, set()).add(d_)
+        flow_typed = set()
+        for n in fn.own_nodes():
+            if isinstance(n, ast.Attribute) and isinstance(n.value, ast.Name) and n.value.id not in typed and n.value.id in ctor_defs:
+                try:
+                    ds = fn.rd.defs_of_use(n.value)
+                except Exception:
+                    ds = set()
+                if ds and all(d_ in ctor_defs[n.value.id] for d_ in ds):
+                    flow_typed.add(n)
+        if not typed and not flow_typed:
             continue
         bad = []
         n_acc = 0
         for n in fn.own_nodes():
-            if isinstance(n, ast.Attribute) and isinstance(n.value, ast.Name) and n.value.id in typed:
+            if isinstance(n, ast.Attribute) and isinstance(n.value, ast.Name) and (n.value.id in typed or n in flow_typed):
                 n_acc += 1
                 if n.attr not in universe and not (n.attr.startswith("__") and n.attr.endswith("__")):
                     bad.append(n)
@@ -1597,8 +1698,12 @@ def A19_attribute_discipline(repo, clause, funcs=None):
             for b in bad:
                 obs.append(Ob("A19", clause, fn, b, False, "`%s` is not an attribute, property or method of Atoms" % ast.unparse(b),
                               slot="unknown-attr:%s" % b.attr, positive=not _dynamic_attrs(repo)))
-    if funcs is None:
+    if funcs is None and modules is None:
         floor("A19", "attribute accesses on Atoms-typed values", total, 100)
+    else:
+        anchor = repo.fn(funcs[0]) if funcs else next(f for f in repo.all_fns() if f.module.name in modules)
+        obs.append(Ob("A19", clause, anchor, anchor.node, True, "%d attribute accesses on Atoms-typed values inspected in %s" % (total, ", ".join(funcs or modules)),
+                      construct="attribute inventory", slot="inventory"))
     return obs
 
 
